@@ -217,12 +217,12 @@ def run(ctx: Check) -> int:
                 "0.125 s (1/3), random Pause/Hold periods and condition-tag changes between ticks.")
     corpus = [c for c in load_corpus("C03") if "pcode" in c and "plan" in c]
     run_oracle(ctx, corpus + hand_cases())
-    a = gen_corr_cases(ctx, ctx.n(150, 2500), 8)
+    a = gen_corr_cases(ctx, ctx.n(120, 2500), 8)
     _stream(ctx, "interp-m3-thresholds", a, run_case, lambda ls: perturb_clocks(ls, Fraction(1, 8)))
-    b = gen_corr_cases(ctx, ctx.n(80, 1500), 10)
+    b = gen_corr_cases(ctx, ctx.n(60, 1500), 10)
     _stream(ctx, "interp-m3-default-interval", b, run_case_tenths, lambda ls: perturb_time(ls, 2))
     m3_stream(ctx, "interp-m3-malformed", ctx.n(25, 600), malformed=True)
-    run_oracle(ctx, gen_oracle_cases(ctx, ctx.n(500, 6000)))
+    run_oracle(ctx, gen_oracle_cases(ctx, ctx.n(400, 6000)))
     ctx.exhaustive = False
     ctx.assumptions = ["clock tags, condition tags and command completion are inputs of the interpreter model",
                        "thresholds / clocks are exactly representable decimals (dyadic or 0.1-grid values)",
